@@ -381,6 +381,11 @@ impl Prop for SetterHistory {
                 ensure!(a == b, "hidden-state", "after op #{} {:?}: a condition with the same getter values set directly differs in its Debug rendering: {} vs {}", i, op, a, b);
             }
         }
+        // handing the condition to an engine keeps every stored value
+        {
+            let e2 = jbonsai::Engine::new(engine.voices.clone(), cond.clone());
+            compare("Engine::new(voices, condition)", &observe(&e2.condition, n), &model)?;
+        }
         // the engine the condition was cloned from is untouched
         let mut r = Report::new();
         r.nontrivial = clamped >= 1 && c.ops.len() >= 3;
